@@ -112,11 +112,18 @@ def replaceFirst {α} [DecidableEq α] (a b : α) : List α → List α
 /-- pkg/server/sync.go:346 `readQueueToMemory`: every queue row through `addBlobToCopy` -/
 def readQueueToMemory (need rows : List Nat) : List Nat := rows.foldl (fun n i => ins i n) need
 
+/-- the id of the zero-length blob (there is exactly one: a ref is a content address). Sizes matter
+to the transfer in two places: reading zero bytes cannot fail (`io.ReadFull` on an empty buffer never
+calls the reader), and there is no *other* content of length zero, so a "corrupt read of the right
+size" of the empty blob does not exist (the harness delivers a size mismatch instead). -/
+def emptyBlob : Nat := 0
+
 /-- what the digest check of `copyBlob` sees: `none` = the copy failed before the check -/
 def fetched (f : Fault) (i : Nat) : Option Nat :=
   match f with
-  | .fetchErr _ | .fetchSize | .shortRead _ | .readEmpty => none
-  | .corrupt => some (i + 1)
+  | .fetchErr _ | .fetchSize => none
+  | .shortRead _ | .readEmpty => if i = emptyBlob then some i else none
+  | .corrupt => if i = emptyBlob then none else some (i + 1)
   | _ => some i
 
 /-- pkg/blob `br.HashMatches(hash)`: a ref is the address of exactly one content -/
